@@ -204,7 +204,7 @@ var stdlog = &logSink{}
 type SigTriple struct{ Key, Msg, Sig []byte }
 
 type World struct {
-	detached bool // the server was given up on (Detach): Close only removes the directory
+	detached bool  // the server was given up on (Detach): Close only removes the directory
 	CloseErr error // what the last Close() of the server returned
 	Dir      string
 	S        *server.GCAServer
@@ -682,6 +682,31 @@ type statsJSON struct {
 }
 
 // Stats queries the weekly statistics endpoint; returns the decoded record when one was served.
+// StatsWith asks for a week with extra query text appended (not recorded as a hop).
+func (w *World) StatsWith(tso uint32, extra string) (*server.AllDeviceStats, HTTPResult) {
+	r := w.do("GET", fmt.Sprintf("/api/v1/all-device-stats?timeslot_offset=%d%s", tso, extra), nil)
+	if r.Panicked || r.Err != nil || r.Status != 200 {
+		return nil, r
+	}
+	var sj statsJSON
+	if err := json.Unmarshal(r.Body, &sj); err != nil {
+		return nil, r
+	}
+	a := server.AllDeviceStats{TimeslotOffset: sj.TimeslotOffset, Signature: sj.Signature}
+	for _, d := range sj.Devices {
+		var ds server.DeviceStats
+		ds.PublicKey = d.PublicKey
+		for i := 0; i < 2016 && i < len(d.PowerOutputs); i++ {
+			ds.PowerOutputs[i] = uint64(d.PowerOutputs[i])
+		}
+		for i := 0; i < 2016 && i < len(d.ImpactRates); i++ {
+			ds.ImpactRates[i] = d.ImpactRates[i]
+		}
+		a.Devices = append(a.Devices, ds)
+	}
+	return &a, r
+}
+
 func (w *World) Stats(tso uint32, falseNeg bool, record bool, note string) (*server.AllDeviceStats, HTTPResult) {
 	path := fmt.Sprintf("/api/v1/all-device-stats?timeslot_offset=%d", tso)
 	if falseNeg {
